@@ -62,4 +62,10 @@ RetErr(id, why, t) ==
                             ELSE cand' = cand
   /\ cur' = NoFrame /\ calls' = [i \in DOMAIN calls \ {id} |-> calls[i]]
   /\ UNCHANGED <<open, seqSend, seqRcv, acks, dev>>
+(* the caller of request id stopped waiting (its task was cancelled): the request is over, no frame is used, and nothing of it
+   stays behind - the next request starts as after any other failure *)
+RetGaveUp(id) ==
+  /\ id \in DOMAIN calls
+  /\ cur' = NoFrame /\ calls' = [i \in DOMAIN calls \ {id} |-> calls[i]]
+  /\ UNCHANGED <<open, seqSend, seqRcv, cand, acks, dev>>
 =============================================================================
